@@ -35,6 +35,7 @@ if True:  # tomllib as used by the code under test
         import tomli as tomllib
 
 WORKERS = int(os.environ.get("C19_TLC_WORKERS", "8"))
+PROCS = int(os.environ.get("C19_REPLAY_PROCS", "8"))
 MISSING = type("Missing", (), {"__repr__": lambda self: "<missing>"})()
 
 # =============================================================================== declarations
@@ -147,6 +148,13 @@ class Collector:
         e["n"] += 1
         if len(e["instances"]) < 12:
             e["instances"].append(detail)
+
+    def merge(self, other):
+        for mine, theirs in ((self.viol, other.viol), (self.obs, other.obs)):
+            for key, e in theirs.items():
+                m = mine.setdefault(key, dict(sig=e["sig"], what=e["what"], n=0, instances=[]))
+                m["n"] += e["n"]
+                m["instances"] = (m["instances"] + e["instances"])[:12]
 
     def flush(self, chk):
         for e in self.viol.values():
@@ -599,6 +607,29 @@ class ConfigReplayer:
         return clean
 
 
+_G = {}
+
+
+def _replay_chunk(bound):
+    """Replay cases[lo:hi] (own scratch sub-directory; runs in a forked worker)."""
+    w, lo, hi = bound
+    cases, table = _G["cases"], _G["table"]
+    rep = ConfigReplayer(table, _G["base"] / f"cfg{w}")
+    col, fails, passing, outcomes = Collector(), [], None, {}
+    for i in range(lo, hi):
+        case = cases[i]
+        text = rep.build(case)
+        outcome, result, msg = rep.run(text)
+        mine = []
+        clean = rep.judge(case, outcome, result, dict(toml=text, msg=msg), col, mine)
+        fails += [(i, outcome, msg) for _ in mine]
+        if clean and outcome == "ok" and passing is None and any(not b and e[1] == "py" for b, e in zip(case["keys"], case["exp"])):
+            passing = i
+        key = ("fault:" + case["fault"] if case["fault"] != "none" else "lattice") + " " + "|".join(case["outcome"]) + " -> " + outcome
+        outcomes[key] = outcomes.get(key, 0) + 1
+    return col, fails, passing, outcomes
+
+
 def attribute_failures(fails, table, col):
     """Valid configurations (spec: parses) that raised.  Causes are established by the minimal
     elements of the lattice: a mode whose fully-populated configurations all fail, a key whose
@@ -665,20 +696,31 @@ def run_config(chk, d, tier, decl_file):
         "optional-key subsets (few present / few omitted) x table headers x 4 input-mode variants x 7 phase-list shapes x 5 fabric letters + 22 single faults on full and minimal bases; 7 lemmas",
     )
     rep = ConfigReplayer(table, d / "cfg")
-    col, fails, passing = Collector(), [], None
-    outcomes = {}
     t0 = time.time()
+    nproc = max(1, min(PROCS, len(cases) // 500))
+    _G.update(cases=cases, table=table, base=d)
+    bounds = [(w, len(cases) * w // nproc, len(cases) * (w + 1) // nproc) for w in range(nproc)]
+    if nproc == 1:
+        parts = [_replay_chunk(bounds[0])]
+    else:
+        import multiprocessing
+
+        with multiprocessing.get_context("fork").Pool(nproc) as pool:
+            parts = pool.map(_replay_chunk, bounds)
+    col, fails, passing, outcomes = Collector(), [], None, {}
+    for pcol, pfails, ppassing, poutcomes in parts:
+        col.merge(pcol)
+        for i, out, msg in pfails:
+            text = rep.build(cases[i])
+            fails.append((cases[i], out, dict(kind="config", mode=cases[i]["mode"], fault=cases[i]["fault"], toml=text, expected_outcome=cases[i]["outcome"], got=out, message=msg)))
+        if passing is None and ppassing is not None:
+            passing = (cases[ppassing], None)
+        for k, v in poutcomes.items():
+            outcomes[k] = outcomes.get(k, 0) + v
     for case in cases:
-        text = rep.build(case)
-        outcome, result, msg = rep.run(text)
-        detail = dict(toml=text, msg=msg)
-        clean = rep.judge(case, outcome, result, detail, col, fails)
-        if clean and outcome == "ok" and passing is None and any(not b and e[1] == "py" for b, e in zip(case["keys"], case["exp"])):
-            passing = (case, text)
-        key = ("fault:" + case["fault"] if case["fault"] != "none" else "lattice") + " " + "|".join(case["outcome"]) + " -> " + outcome
-        outcomes[key] = outcomes.get(key, 0) + 1
         chk.count((case["mode"], tuple(case["keys"]), tuple(case["hdr"].values()), json.dumps([case["asm"], case["fr"], case["fab"]]), case["fault"]))
     chk.cov["config_replay_s"] = round(time.time() - t0, 1)
+    chk.cov["config_replay_processes"] = nproc
     n_expl = attribute_failures(fails, table, col)
     chk.cov["config_outcomes"] = dict(sorted(outcomes.items()))
     chk.cov["valid_configs_that_raised"] = dict(total=len(fails), explained_by_an_established_single_cause=n_expl)
